@@ -11,6 +11,7 @@ import (
 	"strings"
 	"testing"
 
+	"github.com/Eyevinn/mp4ff/bits"
 	"github.com/Eyevinn/mp4ff/mp4"
 	"pgregory.net/rapid"
 
@@ -259,6 +260,53 @@ func TestRegistries(t *testing.T) {
 	harness.Rec.Sample(map[string]interface{}{"kind": "registry", "reader_types": len(r), "sr_types": len(s)})
 	if !reflect.DeepEqual(r, s) {
 		harness.ReportDirect(t, "interchange", boxprop.Case{}, harness.Failf("C03|registry|the two decoder tables have different key sets", "reader %v\nsr %v", r, s))
+	}
+	// the history RemoveBoxDecoder(type) ... SetBoxDecoder(type, ...): after the removal BOTH paths treat the type as
+	// unknown (same structure, same bytes), and the key sets still coincide; after the restoration both decode it again
+	type entry struct {
+		typ   string
+		box   []byte
+		dec   mp4.BoxDecoder
+		decSR mp4.BoxDecoderSR
+	}
+	ents := []entry{
+		{"free", []byte{0, 0, 0, 12, 'f', 'r', 'e', 'e', 1, 2, 3, 4}, mp4.DecodeFree, mp4.DecodeFreeSR},
+		{"sidx", []byte{0, 0, 0, 44, 's', 'i', 'd', 'x', 0, 0, 0, 0, 0, 0, 0, 1, 0, 0, 3, 232, 0, 0, 0, 0, 0, 0, 0, 0, 0, 0, 0, 1, 0, 0, 1, 0, 0, 0, 7, 208, 0x90, 0, 0, 0}, mp4.DecodeSidx, mp4.DecodeSidxSR},
+		{"mfhd", []byte{0, 0, 0, 16, 'm', 'f', 'h', 'd', 0, 0, 0, 0, 0, 0, 0, 9}, mp4.DecodeMfhd, mp4.DecodeMfhdSR},
+	}
+	both := func(b []byte) (string, string) {
+		describe := func(bx mp4.Box, err error) string {
+			if err != nil {
+				return "error"
+			}
+			var w bytes.Buffer
+			_ = bx.Encode(&w)
+			return fmt.Sprintf("%T %x", bx, w.Bytes())
+		}
+		b1, e1 := mp4.DecodeBox(0, bytes.NewReader(b))
+		b2, e2 := mp4.DecodeBoxSR(0, bits.NewFixedSliceReader(b))
+		return describe(b1, e1), describe(b2, e2)
+	}
+	for _, e := range ents {
+		harness.Rec.CaseDistinct(true, "registry-remove-restore-"+e.typ)
+		before1, before2 := both(e.box)
+		mp4.RemoveBoxDecoder(e.typ)
+		gone1, gone2 := both(e.box)
+		r2, s2 := mp4.VerifRegisteredBoxTypes()
+		mp4.SetBoxDecoder(e.typ, e.dec, e.decSR)
+		after1, after2 := both(e.box)
+		switch {
+		case !reflect.DeepEqual(r2, s2):
+			harness.ReportDirect(t, "interchange", boxprop.Case{}, harness.Failf("C03|registry|the two decoder tables have different key sets", "after RemoveBoxDecoder(%q): reader %d types, sr %d types", e.typ, len(r2), len(s2)))
+		case gone1 != gone2:
+			harness.ReportDirect(t, "interchange", boxprop.Case{}, harness.Failf("C03|registry|after RemoveBoxDecoder the two paths decode the type differently", "%q: DecodeBox %s, DecodeBoxSR %s", e.typ, gone1, gone2))
+		case before1 != before2 || after1 != after2 || before1 != after1:
+			harness.ReportDirect(t, "interchange", boxprop.Case{}, harness.Failf("C03|registry|the two paths differ around a removal and restoration of a decoder", "%q: before %s / %s, after %s / %s", e.typ, before1, before2, after1, after2))
+		}
+	}
+	r3, s3 := mp4.VerifRegisteredBoxTypes()
+	if !reflect.DeepEqual(r3, r) || !reflect.DeepEqual(s3, s) {
+		t.Fatalf("registry not restored")
 	}
 }
 
